@@ -384,3 +384,160 @@ func debugRMW(ci *concInfo, w rmwEvent, r rmwEvent) {
 		}
 	}
 }
+
+// ruleOverlay (C19-OVERLAY): after initialisation the settings are only ever replaced by a value computed from
+// the current settings (an overlay of the recognised entries of a payload), never by an unrelated value: an
+// absent, unrecognised or ill-typed entry keeps its previous value.
+//
+// The settings field is the shared-struct field of the settings root type.  A store into it must derive from
+// a read of the field; where the stored value is the result of a caller-supplied function (update(current)),
+// every function value passed at the call sites must itself return something computed from its argument -
+// a call site that passes a function ignoring its argument is a wholesale replacement and is only accepted
+// in the initialisation phase (constructor, Initialize), looking through wrappers like setSettings.
+func ruleOverlay(c *Ctx) {
+	ci := buildConc(c)
+	sm := settingsModel(c, false)
+	rt := settingsRootType(sm)
+	if rt == nil {
+		c.undecided("C19-OVERLAY", "server", "settings type", token.NoPos, "settings parser not identified")
+		return
+	}
+	n := 0
+	for _, f := range ci.funcs {
+		if ci.initFns[f] {
+			continue
+		}
+		for _, b := range f.Blocks {
+			for _, ins := range b.Instrs {
+				st, ok := ins.(*ssa.Store)
+				if !ok {
+					continue
+				}
+				field, fa, ok := rootSharedField(st.Addr)
+				if !ok || fa != st.Addr || !types.Identical(fa.Type().Underlying().(*types.Pointer).Elem(), rt) {
+					continue
+				}
+				n++
+				sl := backSlice(st.Val)
+				derives := false
+				for v := range sl {
+					if u, ok := v.(*ssa.UnOp); ok && u.Op == token.MUL {
+						if f2, _, ok := rootSharedField(u.X); ok && f2 == field {
+							derives = true
+						}
+					}
+				}
+				c.check(derives, "C19-OVERLAY", funcName(f), "new settings are computed from the current settings", st.Pos(),
+					"the value stored into "+field+" depends on a read of "+field, "the settings are overwritten with a value that does not derive from the current settings: entries absent from a payload lose their previous value")
+				// function-valued parameters applied to the current settings
+				for v := range sl {
+					call, ok := v.(*ssa.Call)
+					if !ok || call.Common().StaticCallee() != nil || call.Common().IsInvoke() {
+						continue
+					}
+					p, ok := call.Common().Value.(*ssa.Parameter)
+					if !ok || p.Parent() != f {
+						continue
+					}
+					checkUpdateCallers(c, ci, f, p, 0)
+				}
+			}
+		}
+	}
+	c.census("C19-OVERLAY", "stores into the settings field outside initialisation", n, 1)
+}
+
+// checkUpdateCallers: every function value bound to parameter p of f at f's call sites returns a value computed
+// from its own parameter; otherwise the call site is a wholesale replacement and must belong to the init phase.
+func checkUpdateCallers(c *Ctx, ci *concInfo, f *ssa.Function, p *ssa.Parameter, depth int) {
+	idx := -1
+	for i, q := range f.Params {
+		if q == p {
+			idx = i
+		}
+	}
+	node := ci.g.Nodes[f]
+	if idx < 0 || node == nil || depth > 3 {
+		return
+	}
+	for _, e := range node.In {
+		if e.Site == nil || e.Site.Common().StaticCallee() != f || idx >= len(e.Site.Common().Args) {
+			continue
+		}
+		caller := e.Caller.Func
+		arg := e.Site.Common().Args[idx]
+		var fn *ssa.Function
+		switch a := arg.(type) {
+		case *ssa.MakeClosure:
+			fn, _ = a.Fn.(*ssa.Function)
+		case *ssa.Function:
+			fn = a
+		}
+		desc := "update function passed by " + funcName(caller) + " overlays the current settings"
+		if fn == nil || len(fn.Params) == 0 {
+			if q, isParam := arg.(*ssa.Parameter); isParam && q.Parent() == caller {
+				checkUpdateCallers(c, ci, caller, q, depth+1) // handed through
+				continue
+			}
+			c.undecided("C19-OVERLAY", funcName(caller), desc, e.Site.Pos(), "the function value applied to the current settings could not be resolved")
+			continue
+		}
+		uses := true
+		for _, b := range fn.Blocks {
+			for _, ins := range b.Instrs {
+				if r, ok := ins.(*ssa.Return); ok && len(r.Results) == 1 {
+					if !backSlice(r.Results[0])[ssa.Value(fn.Params[len(fn.Params)-1])] {
+						uses = false
+					}
+				}
+			}
+		}
+		if uses {
+			c.ok("C19-OVERLAY", funcName(caller), desc, e.Site.Pos(), "the result of the update function depends on the settings it is given")
+			continue
+		}
+		// a wholesale setter: acceptable only during initialisation; look through the wrapper's own callers
+		wholesaleCallers(c, ci, caller, e.Site.Pos(), 0)
+	}
+}
+
+func wholesaleCallers(c *Ctx, ci *concInfo, setter *ssa.Function, pos token.Pos, depth int) {
+	node := ci.g.Nodes[setter]
+	if ci.initFns[setter] {
+		c.ok("C19-OVERLAY", funcName(setter), "wholesale replacement of the settings happens during initialisation only", pos, "constructor / Initialize")
+		return
+	}
+	isRoot := false
+	for _, h := range ci.handlers {
+		if h == setter {
+			isRoot = true
+		}
+	}
+	for _, g := range ci.goRoots {
+		if g == setter {
+			isRoot = true
+		}
+	}
+	if node == nil || depth > 3 || isRoot {
+		c.finding("C19-OVERLAY", funcName(setter), "wholesale replacement of the settings happens during initialisation only", pos,
+			"outside the initialisation phase the settings are replaced by a value that ignores the current settings: entries that a payload does not mention (or a null payload) reset to whatever that value holds instead of keeping their previous value")
+		return
+	}
+	n := 0
+	for _, e := range node.In {
+		if e.Site == nil || e.Caller.Func == nil {
+			continue
+		}
+		if _, isGo := e.Site.(*ssa.Go); isGo {
+			continue
+		}
+		n++
+		if ci.initFns[e.Caller.Func] {
+			c.ok("C19-OVERLAY", funcName(e.Caller.Func), "wholesale replacement of the settings happens during initialisation only", e.Site.Pos(), "constructor / Initialize")
+			continue
+		}
+		c.finding("C19-OVERLAY", funcName(e.Caller.Func), "wholesale replacement of the settings happens during initialisation only", e.Site.Pos(),
+			"outside the initialisation phase "+funcName(e.Caller.Func)+" replaces the settings by a value that ignores the current settings: entries that a payload does not mention (or a null payload) reset instead of keeping their previous value")
+	}
+	_ = n
+}
